@@ -40,3 +40,4 @@ def run(ctx):
     _run_rules(ctx)
     from .. import boundaries
     boundaries.check(ctx, 'C11.RB', 'C11')
+    boundaries.check_writes(ctx, 'C11.RW', 'C11')
